@@ -115,7 +115,8 @@ def gen_E(rng, tier):
 def g_free(rng, d):
     x = rng.random()
     if x < 0.25:
-        return g_expr(rng, d) + " ? " + g_expr(rng, d - 1, nocomma=True) + " : " + g_free(rng, d - 1)
+        tail = g_free(rng, d - 1) if rng.random() < 0.3 else None
+        return g_expr(rng, d) + " ? " + g_expr(rng, d - 1, nocomma=True) + " : " + (tail or g_expr(rng, d - 1, nocomma=True))
     if x < 0.35:
         return "sizeof(" + g_expr(rng, 1) + ")" + rng.choice(["", " + 1", " * n"])
     if x < 0.42:
@@ -127,7 +128,11 @@ def g_free(rng, d):
     if x < 0.7:
         return rng.choice(["- -x", "+ +x", "& &x", "- --x", "+ ++x", "-- -x", "! !x", "~ ~x", "* *p", "- - -x", "a = - -b", "(- -a) * b",
                            "& *p", "* &x", "- +x", "+ -x", "a && & b", "a - (- -b)"])
-    # token soup with balanced brackets
+    return None
+
+
+def g_soup(rng):
+    # token soup with balanced brackets: not C; only "no crash, and what parses prints to something that parses to the same tree"
     toks = [rng.choice(IDS + PRIMS + ALLBIN + PREFIX + ["?", ":", "(", "[", "sizeof", "new", ";", "@", "..."]) for _ in range(rng.randint(1, 8))]
     s, stack = [], []
     for t in toks:
@@ -143,6 +148,8 @@ def g_free(rng, d):
 def gen_F(rng, tier):
     for _ in range(50):
         s = g_free(rng, 2)
+        if s is None:
+            return "G " + chunks(g_soup(rng).encode()[:70])
         if len(s) <= 70:
             return "F " + chunks(s.encode())
     return "F " + chunks(b"a ? b : c")
@@ -220,7 +227,7 @@ def g_program(rng):
             elif z < 0.45:
                 body.append("{ unsigned int k = b & 3u; while (k-- > 0) { x += k * (%s); if (x %% 7u == 0) break; } }" % g_cexpr(rng, 1, vars_))
             elif z < 0.55:
-                body.append("do { x = x / 2u + (%s); } while (x > 1000u);" % g_cexpr(rng, 1, ["a", "b", "c"]))
+                body.append("do { x = x / 2u + ((%s) & 15u); } while (x > 1000u);" % g_cexpr(rng, 1, ["a", "b", "c"]))
             elif z < 0.7:
                 body.append("switch (c & 3u) { case 0: x += 1u; break; case 1: x -= 2u; default: x *= 3u; }")
             elif z < 0.8:
@@ -318,6 +325,14 @@ def view(obs):
         if len(p) == 5 and p[0] == p[2] and p[3] == p[4]:
             return "R F RT"
         return obs
+    if obs.startswith("R G "):
+        body = obs[4:]
+        if body in ("ERR", "PAIR"):
+            return "R G RT"
+        p = body.split("|")
+        if len(p) == 5 and p[0] == p[2]:
+            return "R G RT"
+        return obs
     return obs
 
 
@@ -379,6 +394,12 @@ def run(run, tier, seed, replay_case=None):
             cases, progs = [replay_case], []
     env = C.lib_env("asan")
     env["ASAN_OPTIONS"] = env["ASAN_OPTIONS"].replace("detect_leaks=1", "detect_leaks=0")   # parse errors leak by design of the parser; C15 is not about leaks
+    # loaders/typeLoader.cpp:94 casts a cloned typeToken to identifierToken* (C-style downcast, undefined behaviour that
+    # UBSan's vptr check stops at) whenever an expression contains a cast; not C15's subject: reported in docs/notes/C15.md
+    supp = os.path.join(C.WORK, "C15-ubsan.supp")
+    with open(supp, "w") as f:
+        f.write("vptr_check:occa::lang::typeToken\nvptr_check:typeToken\n")
+    env["UBSAN_OPTIONS"] = env["UBSAN_OPTIONS"] + ":suppressions=" + supp
 
     if cases:
         D = C.Differential(run, PROP, [impl], model, env, view=view, signatures=SIGNATURES, keep_first=1,
@@ -405,7 +426,7 @@ def run(run, tier, seed, replay_case=None):
                    "equal the original's; P: generated C functions (declarations, for/while/do/if/switch, ternary, casts): statement "
                    "dump and second print reproduced, g++ values of original and printed program equal on 216 inputs. "
                    "non-trivial = at least five source bytes; distinct = distinct case text")
-    cov["case_kinds"] = dict(E=sum(1 for c in cases if c.startswith("E ")), F=sum(1 for c in cases if c.startswith("F ")), P=len(progs))
+    cov["case_kinds"] = dict(E=sum(1 for c in cases if c.startswith("E ")), F=sum(1 for c in cases if c.startswith("F ")), G=sum(1 for c in cases if c.startswith("G ")), P=len(progs))
     if cases:
         pick = [0, len(cases) // 2, len(cases) - 1]
         cov["samples"] = [dict(case=cases[i][:200], impl=I[i][:300], model=R[i][:300], spec=S[i][:300]) for i in pick]
